@@ -318,7 +318,15 @@ struct Sweeps {
     c_offsets: Vec<u64>,
     c: u64,
     values: usize,
+    /// hole sweep: cumulative start per base frame
+    f_offsets: Vec<u64>,
+    f: u64,
 }
+
+/// hole sweep: the body filled with one non-zero value, one byte replaced (a lone terminator, a
+/// lone escape, a lone high byte in otherwise uniform text / numbers)
+const HOLE_FILLS: [u8; 4] = [0x01, 0xFF, b'a', 0x20];
+const HOLE_VALUES: [u8; 3] = [0x00, b'^', 0x80];
 
 fn sweeps(tier: Tier) -> Sweeps {
     let values = match tier {
@@ -333,6 +341,12 @@ fn sweeps(tier: Tier) -> Sweeps {
     let mut d = 0u64;
     let mut e_offsets = Vec::new();
     let mut e = 0u64;
+    let mut f_offsets = Vec::new();
+    let mut ff = 0u64;
+    for (_, f) in base_frames() {
+        f_offsets.push(ff);
+        ff += ((f.len() - 2) * HOLE_FILLS.len() * HOLE_VALUES.len()) as u64;
+    }
     let pv = pair_values(tier).len() as u64;
     for (bi, (_, f)) in base_frames().iter().enumerate() {
         if f.len() <= pair_max_len(tier) {
@@ -360,6 +374,8 @@ fn sweeps(tier: Tier) -> Sweeps {
         d,
         e_offsets,
         e,
+        f_offsets,
+        f: ff,
     }
 }
 
@@ -386,11 +402,36 @@ impl Prop for C04 {
     }
     fn sweep_len(&self, tier: Tier) -> u64 {
         let s = sweeps(tier);
-        s.a + s.b + s.c + s.d + s.e
+        s.a + s.b + s.c + s.d + s.e + s.f
     }
     fn sweep_case(&self, tier: Tier, idx: u64) -> CodecSc {
         let orig_idx = idx;
         let s = sweeps(tier);
+        let main = s.a + s.b + s.c + s.d + s.e;
+        if idx >= main {
+            let idx = idx - main;
+            let bi = s.f_offsets.partition_point(|o| *o <= idx) - 1;
+            let (mode, base) = &base_frames()[bi];
+            let mut r = (idx - s.f_offsets[bi]) as usize;
+            let hole = HOLE_VALUES[r % HOLE_VALUES.len()];
+            r /= HOLE_VALUES.len();
+            let fill = HOLE_FILLS[r % HOLE_FILLS.len()];
+            r /= HOLE_FILLS.len();
+            let pos = 2 + r;
+            let mut f = base.clone();
+            for b in f.iter_mut().skip(2) {
+                *b = fill;
+            }
+            f[pos] = hole;
+            f.extend_from_slice(&successor(*mode));
+            return CodecSc {
+                mode: *mode,
+                stream: f,
+                segs: vec![],
+                note: format!("hole sweep: frame of type {} ({} bytes), body filled with {:#04x}, byte {} := {:#04x}", base[1], base.len(), fill, pos, hole),
+                trace: orig_idx % 16 == 5,
+            };
+        }
         if idx < s.a {
             let fill = if idx & 1 == 0 { 0x00 } else { 0xFF };
             let ty = ((idx >> 1) & 255) as u8;
@@ -509,6 +550,7 @@ impl Prop for C04 {
             "byte_substitution": {"what": "one zero-bodied frame per packet kind (and a second accepted size for variable-length kinds), every byte position x substitute values", "base_frames": base_frames().len(), "values_per_position": s.values, "cases": s.b, "exhaustive_over_this_subspace": s.values == 256},
             "truncation": {"what": "every cut point of every base frame, followed by valid frames", "cases": s.c, "exhaustive_over_this_subspace": true},
             "byte_pairs": {"what": "two coordinated bytes: every pair of body positions of every base frame up to the stated length x value pairs from the enumerant range", "max_frame_len": pair_max_len(tier), "values": pair_values(tier), "cases": s.e, "exhaustive_over_this_subspace": true},
+            "holes": {"what": "every base frame with its body filled with one non-zero value and one byte replaced by a terminator / escape / high byte, at every body position", "fills": HOLE_FILLS, "holes": HOLE_VALUES, "cases": s.f, "exhaustive_over_this_subspace": true},
             "text_patterns": {"what": "each of a list of multi-byte patterns (text escapes, codepage markers, UTF-8 sequences, version syntax) written at every body position of every base frame", "patterns": PATTERNS.iter().map(|p| hex::enc(p)).collect::<Vec<_>>(), "cases": s.d, "exhaustive_over_this_subspace": true},
         })
     }
@@ -522,7 +564,9 @@ impl Prop for C04 {
         let mut notes = Vec::new();
         let mut ends = Vec::new();
         for _ in 0..n {
-            let f = gen::gen_frame(rng, mode, &mix, stats);
+            // unfiltered: a frame the decoder panics on is what this property is after
+            let _ = &stats;
+            let f = gen::gen_frame_raw(rng, mode, &mix);
             stream.extend_from_slice(&f);
             ends.push(stream.len());
         }
